@@ -19,7 +19,7 @@ from ..pool import pmap
 META = {
     "level": "model_checking",
     "text": "TLC checks the footnote model (registries filled during rendering, then SortFootnotes, docutils' numbering, resolution, the unreferenced detector and CollectFootnotes as separate actions) against the declarative numbering/linking/collection clauses for every arrangement within the bound and all four flag settings; every behaviour is replayed through publish_doctree and random long arrangements are validated as traces by TLC. The order of that chain is itself a model (Pipeline: docutils' priority scheduler over the transforms registered in this tree, priorities extracted at check time) checked against the stage order the footnote and anchor models rely on, and bound to recorded Transformer runs.",
-    "note": "Bound: arrangements <= 4 (quick) / 5 (thorough) top-level blocks over labels {a, b, 1, 2} (reference paragraph or definition) x footnote_sort x footnote_transition. docutils front end. With sorting off docutils numbers auto footnotes in definition order; only injectivity, compactness and kept numeric labels are claimed there. References whose label has no definition are left to docutils (no claim except that others are undisturbed).",
+    "note": "Bound: arrangements <= 4 (quick) / 5 (thorough) top-level blocks over labels {a, A, 1, 2} (labels are matched literally: a and A are two footnotes) (reference paragraph or definition) x footnote_sort x footnote_transition. docutils front end. With sorting off docutils numbers auto footnotes in definition order; only injectivity, compactness and kept numeric labels are claimed there. References whose label has no definition are left to docutils (no claim except that others are undisturbed).",
     "technique": "TLA+ spec + TLC exhaustive check; spec-behaviour replay into the code; TLC batch trace validation",
     "specs": ["Footnotes", "FootnotesTrace", "Pipeline", "PipelineTrace"],
 }
@@ -144,10 +144,10 @@ def _exp(rec):
 def run(ctx):
     quick = ctx.tier == "quick"
     ctx.rule = ("R: every arrangement <= MaxEv over {ref, def} x {a, b, 1, 2} x footnote_sort x footnote_transition. "
-                "V: random arrangements of 3-30 blocks over 12 labels. non-trivial = at least one definition and one reference")
+                "V: random arrangements of 3-30 blocks over 14 labels. non-trivial = at least one definition and one reference")
     ctx.assumptions += ["docutils front end (publish_doctree); every reference in its own paragraph, definitions at top level"]
     n = 4 if quick else 5
-    consts = {"Labels": {"a", "b", "1", "2"}, "MaxEv": n, "WithHr": False, "WithHead": False}
+    consts = {"Labels": {"a", "A", "1", "2"}, "MaxEv": n, "WithHr": False, "WithHead": False}
     r = tlc.run("Footnotes", tlc.cfg(ctx, "fn_mc.cfg", consts, invariants=INVS + ["Emit"], properties=["Terminates"]), wd=ctx.wd, timeout=3000)
     tlc.expect_holds(r, "Footnotes M |= S")
     ctx.add_tlc("Footnotes_mc", r, f"arrangements <= {n} x 4 flag settings")
@@ -191,7 +191,7 @@ def run(ctx):
 
     # ---- V ----------------------------------------------------------------------------------
     rnd = random.Random(ctx.seed + 11)
-    labels = ["a", "b", "c", "d", "e", "note", "1", "2", "3", "5", "10", "12"]
+    labels = ["a", "b", "c", "d", "e", "note", "Note", "A", "1", "2", "3", "5", "10", "12"]
     cases = []
     for t in range(300 if quick else 5000):
         k = rnd.randint(3, 30)
